@@ -1,4 +1,8 @@
 
+val negb : bool -> bool
+
+val snd : ('a1 * 'a2) -> 'a2
+
 val app : 'a1 list -> 'a1 list -> 'a1 list
 
 type comparison =
